@@ -11,7 +11,7 @@ import (
 
 type c16Rule struct {
 	name, tok string
-	val  []byte // expected Value (strings unquoted)
+	val       []byte // expected Value (strings unquoted)
 }
 
 type c16Want struct {
@@ -50,7 +50,10 @@ func noteText() []byte {
 }
 
 // c16Leaf builds a scalar example with rules/notes and the expected AST node.
-func c16Leaf(asProp bool) (*gen.Ex, *c16Want) {
+func c16Leaf(asProp bool) (*gen.Ex, *c16Want) { return c16LeafB(asProp, false) }
+
+// c16LeafB: with boolRules the boolean-valued rules (optional, nullable, const) are written with either value.
+func c16LeafB(asProp, boolRules bool) (*gen.Ex, *c16Want) {
 	w := &c16Want{}
 	var e *gen.Ex
 	switch v.Choose(0, 3) {
@@ -104,13 +107,35 @@ func c16Leaf(asProp bool) (*gen.Ex, *c16Want) {
 	}
 	// generic rules written by the renderer before e.Rules: optional, nullable
 	var pre []c16Rule
-	if asProp && v.Choose(0, 1) == 1 {
-		e.Optional = 1
-		pre = append(pre, c16Rule{"optional", "boolean", bs("true")})
+	tf := []string{"", "true", "false"}
+	hiB := 1
+	if boolRules {
+		hiB = 2
 	}
-	if v.Choose(0, 1) == 1 {
-		e.Nullable = 1
-		pre = append(pre, c16Rule{"nullable", "boolean", bs("true")})
+	if asProp {
+		if o := v.Choose(0, hiB); o != 0 {
+			e.Optional = gen.Tri(o)
+			pre = append(pre, c16Rule{"optional", "boolean", bs(tf[o])})
+		}
+	}
+	if n := v.Choose(0, hiB); n != 0 {
+		e.Nullable = gen.Tri(n)
+		pre = append(pre, c16Rule{"nullable", "boolean", bs(tf[n])})
+	}
+	// a written const rule (true or false) is listed like any other, first or last among the specific rules
+	c := 0
+	if boolRules && w.styp != "any" {
+		c = v.Choose(0, 2)
+	}
+	if c != 0 {
+		r, wr := gen.Rule{Name: "const", Value: bs(tf[c])}, c16Rule{"const", "boolean", bs(tf[c])}
+		if v.Choose(0, 1) == 0 {
+			e.Rules = append([]gen.Rule{r}, e.Rules...)
+			w.rules = append([]c16Rule{wr}, w.rules...)
+		} else {
+			e.Rules = append(e.Rules, r)
+			w.rules = append(w.rules, wr)
+		}
 	}
 	if w.styp == "any" {
 		// the renderer writes `type: "any"` via Rules here, after optional/nullable
@@ -225,6 +250,34 @@ func ZZC16() {
 }
 
 func init() { ZZHarnesses["ZZC16"] = ZZC16 }
+
+// ZZC16Bool: boolean-valued rules written as true or as false (optional, nullable, const) are listed
+// in the AST as written, on a root value and on a property.
+func ZZC16Bool() {
+	var root *gen.Ex
+	var want *c16Want
+	if v.Choose(0, 1) == 0 {
+		root, want = c16LeafB(false, true)
+	} else {
+		e, w := c16LeafB(true, true)
+		w.key = bs("k")
+		root = &gen.Ex{Kind: gen.KObj, Keys: [][]byte{bs("k")}, Kids: []*gen.Ex{e}}
+		want = &c16Want{tok: "object", styp: "object", kids: []*c16Want{w}}
+	}
+	st := gen.Schema(root)
+	v.Observe("schema", st)
+	s := jschema.New("s", st)
+	v.Assume(s.Check() == nil)
+	ast, err := s.GetAST()
+	v.Assert(err == nil, "C16/getast-error")
+	if err != nil {
+		return
+	}
+	v.Reach("C16/bool-rules")
+	c16Compare(ast, want, "")
+}
+
+func init() { ZZHarnesses["ZZC16Bool"] = ZZC16Bool }
 
 // ZZC16Cases: reference nodes, or/enum/allOf items, key shortcuts, generated
 // rules - compared with reviewed expected ASTs (JSON form).
